@@ -82,7 +82,8 @@ def processLine (line : String) : String :=
       match O2Event.parse? evt, O2State.parse? src, O2State.parse? dst,
             script.mapM? (fun o => o.str?.bind Outcome.parse?) with
       | some evt, some src, some dst, some script =>
-        let rpc := wiring.startsWith "rpc"
+        -- rpc = the real client over the protobuf transport, json = over the JSON transport: DST is not on the wire
+        let rpc := wiring.startsWith "rpc" || wiring.startsWith "json"
         let cfg := codeCfg   -- the model of the code as it is (a wiring suffix "fixed" is accepted and means nothing any more)
         let strict := flavour == "strict"
         if mode == "FAIRMQ" then
